@@ -1,7 +1,8 @@
-(** C05 — Concurrency caps hold and are reported rightly (isolation part).
+(** C05 — Concurrency caps (isolation, hotspot concurrency) hold and are reported rightly.
     Statements only. *)
 From SV Require Import Model.Base Model.LeapArray Model.World Spec.WorldSpec Spec.C05Spec
   Proofs.WorldProofs Proofs.C05Proofs.
+From SV Require Import Model.Hotspot Spec.C05hSpec Proofs.C05hProofs.
 Open Scope N_scope.
 
 (** For every set of isolation rules on any resources and every history of builds (any batch),
@@ -25,4 +26,30 @@ Example C05_example :
   run_typed (world0 default_cfg 20000 (fun _ => []) (fun _ => [(3, 2)]))
     [WB 1 0 1 false None; WB 2 0 1 false None; WB 3 0 1 false None; WX 1; WB 4 0 1 false None] =
   [ZAdmit; ZAdmit; ZBlock 2 3 2; ZExited; ZAdmit].
+Proof. vm_compute. reflexivity. Qed.
+
+(** Hotspot concurrency rules: for every concurrency rule r whose threshold and per-value
+    overrides are at least 1, every start time and every history of builds (positional or keyed
+    parameters, negative indices, missing parameters, any batch), exits in any order and clock
+    advances: a build with parameter value v, while k entries with that value are open, is
+    admitted exactly when k + 1 <= T_v, where T_v is v's override if it has one and the rule
+    threshold otherwise; a rejection names the rule and carries k + 1; builds without an
+    extractable value are admitted. *)
+Theorem C05_hotspot_exact : forall r base ops,
+  h_kind r = HConc -> thresholds_pos r = true ->
+  ok_c05h r [] ops (hrun (mkHW base [hctl0 r] []) ops) = true.
+Proof. exact c05h_holds_init. Qed.
+
+(** ... so the entries open at the same time with value v never exceed T_v. *)
+Theorem C05_hotspot_cap : forall r base ops v,
+  h_kind r = HConc -> thresholds_pos r = true ->
+  count_open r v (open_after [] ops (hrun (mkHW base [hctl0 r] []) ops)) <= thr_of r v.
+Proof. exact c05h_cap. Qed.
+
+Example C05_hotspot_example :
+  let r := mkHR 1 HConc 2 0 0 0 0 0 [(9, 1)] in
+  hrun (mkHW 1000 [hctl0 r] [])
+    [HB 1 (Some [5]) None 1; HB 2 (Some [5]) None 3; HB 3 (Some [5]) None 1; HB 4 (Some [9]) None 1;
+     HB 5 (Some [9]) None 1; HX 1; HB 6 (Some [5]) None 1] =
+  [HOAdmit 1000; HOAdmit 1000; HOBlock 1 3 1000; HOAdmit 1000; HOBlock 1 2 1000; HOExited; HOAdmit 1000].
 Proof. vm_compute. reflexivity. Qed.
